@@ -22,6 +22,16 @@ def gen_cases(rng, tier):
     # corpus: minimised earlier findings (regressions of the fix: commits)
     for text in CORPUS:
         cases.append({'text': text, 'strict': False, 'cycles': 2, 'kind': 'corpus'})
+    # an element that is written on the line of the token in front of it (offset 0) directly behind a stored // comment:
+    # through the reordering of position-restricted items, through an unknown element that non-strict loading skips; LF / CRLF
+    for body in ('/begin RECORD_LAYOUT rl\n  // axis point count first, then the values\n  FNC_VALUES 2 UBYTE COLUMN_DIR DIRECT NO_AXIS_PTS_X 1 UBYTE\n/end RECORD_LAYOUT',
+                 '/begin RECORD_LAYOUT rl\n  /* a */ // b\n  RESERVED 3 BYTE FNC_VALUES 2 UBYTE COLUMN_DIR DIRECT NO_AXIS_PTS_X 1 UBYTE\n/end RECORD_LAYOUT',
+                 '/begin MEASUREMENT a "" UBYTE NO_COMPU_METHOD 0 0 0 255\n  // address\n  VENDOR_KW 1 ECU_ADDRESS 0x10\n/end MEASUREMENT',
+                 '/begin MEASUREMENT a "" UBYTE NO_COMPU_METHOD 0 0 0 255\n  ECU_ADDRESS 0x10\n  // last\n  VENDOR_KW 1 /end MEASUREMENT',
+                 '/begin MEASUREMENT a "" UBYTE NO_COMPU_METHOD 0 0 0 255\n  // block\n  /begin VENDOR_BLK 1 /end VENDOR_BLK /begin ANNOTATION /end ANNOTATION\n/end MEASUREMENT',
+                 '/begin MEASUREMENT a "" UBYTE NO_COMPU_METHOD 0 0 0 255 /end MEASUREMENT\n// between\nVENDOR_KW 2 /begin MEASUREMENT b "" UBYTE NO_COMPU_METHOD 0 0 0 255 /end MEASUREMENT'):
+        for nl in ('\n', '\r\n'):
+            cases.append({'text': (HDR + body + FTR).replace('\n', nl), 'strict': False, 'cycles': 2, 'kind': 'offset0-behind-line-comment'})
     for i in range(n):
         a2ml = 'simple' if rng.random() < 0.15 else None
         node, text, toks = docs.random_doc(rng, size=rng.choice(['tiny', 'small', 'small', 'medium', 'large'] if tier != 'quick' else ['tiny', 'small', 'small', 'medium']),
@@ -55,7 +65,10 @@ def oracle(c, r, cases, res):
         if st != 'OK':
             return 'cycle %d: the written file does not load (%s)' % (k + 1, st)
         if cy[1] != 1:
-            return 'cycle %d: the reloaded model differs from the model that was written' % (k + 1)
+            later_ok = all(x[0] == b'OK' and x[1] == 1 for x in r.cycles[k + 1:]) and all(x[2] == cy[2] for x in r.cycles[k + 1:])
+            same = cy[2] == prev_text and later_ok
+            return 'cycle %d: the reloaded model differs from the model that was written; %s' % (
+                k + 1, 'the written text is the same and stays the same' if same else 'the written text changes as well')
         if cy[2] != prev_text:
             a = prev_text.decode('utf-8', 'replace').split('\n')
             b = cy[2].decode('utf-8', 'replace').split('\n')
@@ -67,8 +80,14 @@ def oracle(c, r, cases, res):
 
 
 def classify_known(c, why, r):
-    if r.status == 'OK' and loadlib.reordered_blocks(r.node):
-        return 'position-restricted-reorder'
+    # the finding: children with a position restriction are written in position order - the model read back lists them in
+    # that order (differs once), the text is the same from the first save on.  Anything else in such a document is a violation.
+    if r.status == 'OK' and loadlib.reordered_blocks(r.node) and 'model differs' in why and 'the written text is the same' in why:
+        # and nothing but the order changed: the written text has the tokens of the input (same number, same keywords and names)
+        ti, to = loadlib.scan_tokens(c['text']), loadlib.scan_tokens(r.text1.decode('utf-8', 'replace'))
+        if ti is not None and to is not None and len(ti) == len(to) and \
+                sorted(t[1] for t in ti if t[0] == 'ident') == sorted(t[1] for t in to if t[0] == 'ident'):
+            return 'position-restricted-reorder'
     return None
 
 
